@@ -115,11 +115,23 @@ def car_precedence(sl):
     # Rally's own node variables win whatever cars say
     inst = provisioner.ElasticsearchInstaller(car, java_home="/java", node_name="rally-node-0", cluster_name="c", node_root_dir="/root-dir",
                                               all_node_ips=["10.0.0.1"], all_node_names=["rally-node-0"], ip="10.0.0.1", http_port=39200)
+    snapshot = dict(car.variables)
+    inst.es_home_path = "/root-dir/install/elasticsearch-8.0.0"  # what install() does after unpacking
+    inst.data_paths = inst._data_paths()
     v = inst.variables
     observe("internal variables cannot be overridden by cars or bases", v["http_port"] == "39200" and v["node_name"] == "rally-node-0"
             and v["transport_port"] == "39300" and v["network_host"] == "10.0.0.1")
     if exp is not None:
         observe("car variables reach the installer", "x" in v and (v["x"] is exp or v["x"] == exp))
+    # a second node on the same host is provisioned from the same Car object
+    inst2 = provisioner.ElasticsearchInstaller(car, java_home="/java", node_name="rally-node-1", cluster_name="c", node_root_dir="/root-dir-1",
+                                               all_node_ips=["10.0.0.1"], all_node_names=["rally-node-0", "rally-node-1"], ip="10.0.0.1", http_port=39201)
+    inst2.es_home_path = "/root-dir-1/install/elasticsearch-8.0.0"  # what install() does after unpacking
+    inst2.data_paths = inst2._data_paths()
+    v2 = inst2.variables
+    observe("the car's own variables are not modified by provisioning a node", dict(car.variables) == snapshot)
+    observe("every node gets its own internal variables (name, ports, paths)", v2["node_name"] == "rally-node-1" and v2["http_port"] == "39201"
+            and ("data_paths" in snapshot or all(p.startswith("/root-dir-1") for p in v2["data_paths"])))
 
 
 # ------------------------------------------------------------------------------------------------------------------
@@ -129,15 +141,21 @@ DIRS = ["", "config/certs"]
 
 
 def apply_tree(sl):
-    """provisioner._apply_config for two config bases over an in-memory template tree"""
+    """provisioner._apply_config for two config bases over an in-memory template tree, rendered by the REAL Jinja2"""
+    import jinja2
+
     bases = ["/team/cars/v1/b0/templates", "/team/cars/v1/b1/templates"]
-    tree = {}
+    tree, content = {}, {}
     for bi, b in enumerate(bases):
         for d in DIRS:
             present = [f for f in (PLAIN[:1] + BINARY[:1]) if bool(fresh_bool("base%d_%s_%s" % (bi, d.replace("/", "_") or "root", f.split(".")[0])))]
             if d == "" and bi == 0:
                 present.append(PLAIN[1])
             tree[(b, d)] = present
+            for f in present:
+                root = real_os.path.join(b, d) if d else b
+                nl = bool(fresh_bool("base%d_%s_%s_ends_with_newline" % (bi, d.replace("/", "_") or "root", f.split(".")[0]))) if f in PLAIN else True
+                content[(root, f)] = "setting{{ x }}: from-base%d-%s" % (bi, f) + ("\n" if nl else "")
     written, copied, dirs = {}, [], []
 
     class Walk:
@@ -148,26 +166,13 @@ def apply_tree(sl):
             for d in DIRS:
                 yield (real_os.path.join(root, d) if d else root), [], list(tree[(root, d)])
 
-    class Tmpl:
-        def __init__(self, root, name):
-            self.root, self.name = root, name
-
-        def render(self, variables):
-            return "rendered(%s/%s;x=%s)" % (self.root, self.name, variables.get("x"))
-
     class Jinja:
-        exceptions = provisioner.jinja2.exceptions
+        exceptions = jinja2.exceptions
+        Environment = jinja2.Environment
 
-        class FileSystemLoader:
-            def __init__(self, root):
-                self.root = root
-
-        class Environment:
-            def __init__(self, loader):
-                self.loader = loader
-
-            def get_template(self, name):
-                return Tmpl(self.loader.root, name)
+        @staticmethod
+        def FileSystemLoader(root):
+            return jinja2.DictLoader({f: c for (r, f), c in content.items() if r == root})
 
     class Out:
         def __init__(self, path, mode):
@@ -192,20 +197,27 @@ def apply_tree(sl):
 
     target = "/install/elasticsearch-8.0.0"
     with shadowed(provisioner, (), extra={"os": Walk, "jinja2": Jinja, "open": lambda p, mode="r", encoding=None: Out(p, mode), "io": Io, "shutil": Sh}):
-        for b in bases:
-            provisioner._apply_config(b, target, {"x": 1})
+        try:
+            for b in bases:
+                provisioner._apply_config(b, target, {"x": 1})
+        except Exception as e:  # noqa: BLE001
+            core.note("_apply_config raised", repr(e))
+            observe("templates of every config base can be applied", False)
+            return
     core.trace("files", sum(len(v) for v in tree.values()))
     for d in DIRS:
         tdir = real_os.path.join(target, d)
         for f in PLAIN[:2]:
-            exp = ["rendered(%s/%s;x=1)\n" % ((real_os.path.join(b, d) if d else b), f) for b in bases if f in tree[(b, d)]]
+            exp_lines = ["setting1: from-base%d-%s" % (bi, f) for bi, b in enumerate(bases) if f in tree[(b, d)]]
             got = written.get(real_os.path.join(tdir, f), [])
-            observe("every template is rendered into the same relative path, appended in config-base order",
-                    [s for (_, s) in got] == exp and all(m == "a" for (m, _) in got))
+            text = "".join(s_ for (_, s_) in got)
+            observe("every template is rendered (variables substituted) into the same relative path; snippets of several config bases are appended in "
+                    "order, each on its own lines", text.splitlines() == exp_lines and all(m == "a" for (m, _) in got) and (text == "" or text.endswith("\n")))
         for f in BINARY[:1]:
             exp = [(real_os.path.join(real_os.path.join(b, d) if d else b, f), real_os.path.join(tdir, f)) for b in bases if f in tree[(b, d)]]
             observe("binary files are copied verbatim to the same relative path", [c for c in copied if c[1] == real_os.path.join(tdir, f)] == exp)
-    observe("nothing else is written", sum(len(v) for v in written.values()) + len(copied) == sum(len(v) for v in tree.values()))
+    observe("nothing else is written", len(written) + len(copied) == len({(d, f) for (b, d), fs in tree.items() for f in fs if f in PLAIN}) + sum(
+        1 for fs in tree.values() for f in fs if f in BINARY))
 
 
 def plain_text_kinds(sl):
@@ -262,8 +274,8 @@ HARNESSES = [
             bounds={"cars/mixins": "<=3", "config bases per car": "<=2 (3) out of 3", "values": "unbounded symbolic integers (0 included)", "car parameter": "absent / given"},
             doc="precedence parameter > later car > earlier car > config base; config paths in order without duplicates; internal variables win"),
     Harness("apply_tree", apply_tree, "symbolic", lambda tier: [{}], reads=READS,
-            stubs=["os.walk over an in-memory tree with symbolic file presence", "jinja2 environment returning a marker per (directory, file)", "open/shutil.copy/ensure_dir recorders"],
-            bounds={"config bases": 2, "directories": DIRS, "files per directory": "1 template + 1 binary, each present or absent (plus one fixed template)"},
+            stubs=["os.walk over an in-memory tree with symbolic file presence", "jinja2.FileSystemLoader replaced by a DictLoader over the in-memory tree (Environment and rendering are the real Jinja2)", "open/shutil.copy/ensure_dir recorders"],
+            bounds={"config bases": 2, "directories": DIRS, "files per directory": "1 template + 1 binary, each present or absent (plus one fixed template); every template with or without a final newline"},
             doc="templates rendered into the same relative path with append, binaries copied"),
     Harness("plain_text_kinds", plain_text_kinds, "bounded-exhaustive", lambda tier: [{}], reads=READS, doc="template vs binary by extension"),
     Harness("cleanup", cleanup, "symbolic", lambda tier: [{}], reads=READS, stubs=["os.path.exists / shutil.rmtree over a symbolic set of existing paths"],
